@@ -524,22 +524,21 @@ fn faulty(a: &Ast, class: u32, x: u32, y: u32) -> Faulty {
             ("bad_move_token", render_tokens(&t, sp))
         }
         4 => {
-            let good = Pos::start().fen();
-            let bad = match x % 6 {
-                0 => good.replace("8/8", "8/9"),
-                1 => good.replace(" w ", " x "),
-                2 => good.replace("KQkq", "KQqk"),
-                3 => good.replace("rnbqkbnr/", ""),
-                4 => good.replace(" - ", " e99 "),
-                _ => good.replace(" 0 1", " 0"),
-            };
+            // every FEN fault class of C12, embedded in a position command (with or without a move list)
+            let raw = gen::RawPos::Playout(gen::RawPlayout { seed: (x % 60_000) as u16, half: (0, 0), full: (0, 0), flip: x % 2 == 0, choices: vec![(y % 65_536) as u16; (x % 7) as usize] });
+            let bad = crate::props::c12::invalid_case(&raw, y % crate::props::c12::N_FAULTS, x / 7, y / 16);
             let mut t: Vec<String> = vec!["position".into(), "fen".into()];
-            bad.split(' ').for_each(|w| t.push(w.to_string()));
+            bad.text.split(' ').filter(|w| !w.is_empty()).for_each(|w| t.push(w.to_string()));
             if y % 2 == 0 {
                 t.push("moves".into());
                 t.push("e2e4".into());
             }
-            ("bad_fen", render_tokens(&t, sp))
+            // white space faults vanish when the line is tokenised: those classes are not faults of a command line
+            if matches!(bad.class.as_str(), "doubled_space") || bad.text.split(' ').filter(|w| !w.is_empty()).count() == 6 && bad.class.starts_with("field_count") {
+                ("missing_operand", render_tokens(&["position".to_string(), "fen".to_string()], sp))
+            } else {
+                ("bad_fen", render_tokens(&t, sp))
+            }
         }
         5 => {
             // duplicated go parameter
